@@ -1494,6 +1494,10 @@ class TimePoint:
         """Returns a copy of this TimePoint with truncated time properties
         added to it."""
         new = self._copy()
+        if hour_of_day == CALENDAR.HOURS_IN_DAY:
+            # The 24:00 end-of-day form is 00:00 of the following day: no
+            # clock time ever reads hour 24, so searching for it never ends.
+            hour_of_day = 0
         if hour_of_day is not None and minute_of_hour is None:
             minute_of_hour = 0
         if ((hour_of_day is not None or minute_of_hour is not None) and
